@@ -15,7 +15,9 @@ CHECKS = {
             'and mixed sites: calc_H_MPO, term lists, MPOGraph.from_term_list, calc_H_bond and the MPO<->bond conversions, '
             'get_numpy_Hamiltonian / get_scipy_sparse_Hamiltonian (both basis conventions), ExactDiag, sort_legcharges and '
             'group_sites all have to reproduce the reference matrix; infinite models are compared through energy densities of '
-            'product states; predefined models (by reflection) must be Hermitian with agreeing representations.',
+            'product states; predefined models (by reflection) must be Hermitian with agreeing representations; grouping by up to 4 '
+            'sites incl. the bond operators of grouped NearestNeighborModels; exporters of plain MPOModels / ExactDiag.from_H_mpo for '
+            'MPOs that carry explicit_plus_hc.',
             'C19 and C12; Hilbert-space dimension <= 1100; explicit_plus_hc models are generated Hermitian as documented',
             'DESIGN.md §C10'),
     'C11': ('exploration', 'dense matrix of every MPO obtained by the harness contraction of the W tensors (IdL/IdR) compared with the '
